@@ -14,6 +14,7 @@ import (
 	"os"
 	"reflect"
 	"sort"
+	"sync/atomic"
 )
 
 // BudgetExceeded is the sentinel panic raised when a run passes its tick or depth budget.
@@ -59,7 +60,8 @@ var (
 
 // Reset clears the per-compilation counters (not the configuration).
 func Reset() {
-	Ticks = 0
+	atomic.StoreInt64(&Ticks, 0)
+	atomic.StoreInt64(&depth, 0)
 	Depth = 0
 	MaxDepth = 0
 	Visits = Visits[:0]
@@ -68,26 +70,30 @@ func Reset() {
 	DiskReads = 0
 }
 
-// Tick is inserted at the top of every loop body of the compiler.
+// Tick is inserted at the top of every loop body of the compiler. The counters are
+// updated atomically so that a change which introduces goroutines cannot corrupt them.
 func Tick() {
-	Ticks++
-	if TickBudget > 0 && Ticks > TickBudget {
-		panic(BudgetExceeded{Kind: "ticks", Ticks: Ticks, Depth: Depth})
+	n := atomic.AddInt64(&Ticks, 1)
+	if TickBudget > 0 && n > TickBudget {
+		panic(BudgetExceeded{Kind: "ticks", Ticks: n, Depth: int(atomic.LoadInt64(&depth))})
 	}
 }
+
+var depth int64
 
 // Enter / Exit bracket every function of lexer, parser, emitter.
 func Enter() {
-	Depth++
-	if Depth > MaxDepth {
-		MaxDepth = Depth
+	d := int(atomic.AddInt64(&depth, 1))
+	Depth = d
+	if d > MaxDepth {
+		MaxDepth = d
 	}
-	if DepthBudget > 0 && Depth > DepthBudget {
-		panic(BudgetExceeded{Kind: "depth", Ticks: Ticks, Depth: Depth})
+	if DepthBudget > 0 && d > DepthBudget {
+		panic(BudgetExceeded{Kind: "depth", Ticks: atomic.LoadInt64(&Ticks), Depth: d})
 	}
 }
 
-func Exit() { Depth-- }
+func Exit() { Depth = int(atomic.AddInt64(&depth, -1)) }
 
 // ReadFile replaces ioutil.ReadFile / os.ReadFile in library packages.
 func ReadFile(path string) ([]byte, error) {
@@ -96,6 +102,17 @@ func ReadFile(path string) ([]byte, error) {
 		return ReadFileFn(path)
 	}
 	return os.ReadFile(path)
+}
+
+// Seq is one visit of a map-range site: the map and its keys in the chosen order.
+type Seq[K comparable, V any] struct {
+	M    map[K]V
+	Keys []K
+}
+
+// Range evaluates the ranged expression exactly once and fixes the order of the visit.
+func Range[K comparable, V any](m map[K]V, site string) Seq[K, V] {
+	return Seq[K, V]{M: m, Keys: Keys(m, site)}
 }
 
 // Keys returns the keys of m in the order the simulator chose for this visit.
